@@ -945,8 +945,9 @@ def solve_sylvester_diagonal(
             new_data = Y_coo.data * energy_denominators
             return sparse.csr_array((new_data, (Y_coo.row, Y_coo.col)), Y_coo.shape)
         if isinstance(Y, sympy.MatrixBase):
-            array_eigs_a = np.array(eigs_A, dtype=object)  # Use numpy to reshape
-            array_eigs_b = np.array(eigs_B, dtype=object)
+            # Use numpy to reshape. Sympify because a zero block has an integer 0 as eigenvalue.
+            array_eigs_a = np.array(sympy.sympify(eigs_A.tolist()), dtype=object)
+            array_eigs_b = np.array(sympy.sympify(eigs_B.tolist()), dtype=object)
             energy_denominators = sympy.Matrix(
                 np.resize(1 / (array_eigs_a.reshape(-1, 1) - array_eigs_b), Y.shape)
             ).subs(sympy.zoo, sympy.S.Zero)  # Take care of diagonal elements
